@@ -412,6 +412,16 @@ def _find_minmax(f):
     return None
 
 
+def _find_minmax_facts(facts):
+    """min/max/saturating_sub terms hidden in equality facts (they may have been eliminated from the residual)"""
+    for atom, pol in facts.order:
+        if atom[0] == "eq" and pol is True:
+            for s in subterms(atom):
+                if isinstance(s, tuple) and s and s[0] in MINMAX:
+                    return s
+    return None
+
+
 def subst(t, old, new):
     if t == old:
         return new
@@ -436,9 +446,8 @@ def prove_zero(form, facts, extra_eqs=(), depth=0):
     r = ls.reduce(form)
     if r.is_zero():
         return True, None
-    mm = _find_minmax(r) if depth < 5 else None
+    mm = (_find_minmax(r) or _find_minmax(form) or _find_minmax_facts(facts)) if depth < 5 else None
     if mm is None:
-        # also look for min/max hidden in the equalities (they may rewrite the residual)
         return False, "residual %r" % r
     a, b = mm[1], mm[2]
     cases = []
